@@ -89,6 +89,13 @@ func (w *Writer) EmitAll(evs []Ev) {
 	w.mu.Unlock()
 }
 
+// Flush makes everything emitted so far durable (used before risky calls).
+func (w *Writer) Flush() {
+	w.mu.Lock()
+	w.w.Flush()
+	w.mu.Unlock()
+}
+
 func (w *Writer) Close() error {
 	w.mu.Lock()
 	defer w.mu.Unlock()
